@@ -14,11 +14,12 @@ This file discharges them from a decidable condition on the S-expression alone.
   definition or a statement, in any order, made of strings / ints / floats / `None` / lists only; every identifier a
   `LegalName` (module names `SafeMod`), every float `FloatOK` (canonical, finite), blocks nested as in Jaqal.
 * `C01_builder_legal` : `SxLegal e → (build cfg e).bind tooManyRegisters = .ok c → IntsBounded c → BuilderLegal cfg e c`
-  (`autoload_pulses=False`; `C01_builder_legal_any` for every configuration when the header statements come first).
+  (`autoload_pulses=False`); `C01_builder_legal_any` : the same for EVERY configuration (autoload on or off, any modules,
+  any `inject_pulses`), children in any order the builder accepts.
 * `C01_builder_parsed` : … `→ ∃ t, gen c = .ok t ∧ parseProgram cfg t = .ok c` — **the built circuit IS the circuit
   `parse_jaqal_string` makes of its own generated text**; so every theorem about parser-produced circuits (C01 … C20)
   applies to it.
-* `C01_roundtrip_builder`, `C01_meaning_builder` : the property.
+* `C01_roundtrip_builder(_any)`, `C01_meaning_builder(_any)` : the property.
 * `C01_sxLegal_of_parsed` : the tree of every accepted text is `SxLegal`, so these theorems subsume the ones for texts.
 * the hypotheses are needed: `C01_builder_needs_*` (each evaluated in the model; the same inputs were run through the real
   `jaqalpaq.core.circuitbuilder.build` / `generate_jaqal_program` / `parse_jaqal_string`, see the comments).
@@ -120,29 +121,25 @@ theorem C01_meaning_builder (cfg : Config) (e : BSx) (c : Circuit) (ha : cfg.aut
   exact ⟨heq, hg, fun ρ => ⟨rfl, (C20.C20_sound_parsed_any cfg cfg t t c' c' ρ hp hp heq).2.2⟩⟩
 
 
-/-! ## every configuration (`autoload_pulses` on or off), header statements first -/
+/-! ## every configuration (`autoload_pulses` on or off), children in any order
 
-/-- the children of a legal program whose header statements come first -/
-theorem sxLegal_split {e : BSx} (hl : SxLegal e = true) (hf : headersFirst e = true) :
-    ∃ hs bs, e = .list (.str "circuit" :: (hs ++ bs)) ∧ (∀ x ∈ hs, GHeader x) ∧ (∀ x ∈ bs, GTop x) ∧
-      ∀ x ∈ hs ++ bs, SChildL x ∧ noBr x = true := by
-  obtain ⟨cs, rfl, hs, _⟩ := sxLegal_inv hl
-  obtain ⟨hs', bs', rfl, hh, hb⟩ := headersFirst_split hf
-  exact ⟨hs', bs', rfl, fun x hx => (hh x hx).toG, fun x hx => (hb x hx).toG, hs⟩
+With autoload on a `usepulses` statement loads a module into the gate table and is refused once a statement or a macro has
+been recorded; `let` / `register` / `map` may still follow statements.  `auto_to_plain_any` (`Lemmas/RoundTripSx.lean`)
+extends the simulation of the autoload builder by the plain one (`Lemmas/RoundTripAutoload.lean`) from "header statements
+first" to any order the builder accepts, so nothing but `SxLegal` is asked of the S-expression. -/
 
-/-- **A circuit built from a legal S-expression whose header statements come first is the circuit `parse_jaqal_string`
-makes of its own generated text — in every configuration** (any `inject_pulses`, `autoload_pulses` on or off, any
-modules), re-parsing with the same configuration. -/
+/-- **A circuit built from a legal S-expression is the circuit `parse_jaqal_string` makes of its own generated text — in
+every configuration** (any `inject_pulses`, `autoload_pulses` on or off, any modules), re-parsing with the same
+configuration. -/
 theorem C01_builder_parsed_any (cfg : Config) (e : BSx) (c : Circuit) (hl : SxLegal e = true)
-    (hf : headersFirst e = true) (h : (build cfg e).bind tooManyRegisters = .ok c) (hi : IntsBounded c) :
+    (h : (build cfg e).bind tooManyRegisters = .ok c) (hi : IntsBounded c) :
     ∃ t, gen c = .ok t ∧ parseProgram cfg t = .ok c := by
   obtain ⟨hb, ht, hone⟩ := built_inv h
-  obtain ⟨hs, bs, rfl, hh, hbd, hcs⟩ := sxLegal_split hl hf
+  obtain ⟨cs, rfl, hs, hcs⟩ := sxLegal_inv hl
   rw [C07_memo_transparent] at hb
-  have hnb : ∀ x ∈ hs ++ bs, noBr x = true := fun x hx => (hcs x hx).2
-  have hfacts := buildNoMemo_facts_any cfg hh hbd hnb hb
-  have hsafe := lexSafe_of (buildNoMemo_safe_any cfg hh hbd hcs hb) hi
-  have hre := buildNoMemo_rebuild_any cfg hh hbd hnb hb hone
+  have hfacts := buildNoMemo_facts_sx cfg hcs hb
+  have hsafe := lexSafe_of (buildNoMemo_safe_sx cfg hs hb) hi
+  have hre := buildNoMemo_rebuild_sx cfg hcs hb hone
   obtain ⟨t, hg, hred⟩ := Passes.C10_text_reduces c hfacts.printable hsafe
   refine ⟨t, hg, ?_⟩
   rw [hred cfg]
@@ -152,9 +149,8 @@ theorem C01_builder_parsed_any (cfg : Config) (e : BSx) (c : Circuit) (hl : SxLe
 
 /-- `BuilderLegal` discharged in every configuration -/
 theorem C01_builder_legal_any (cfg : Config) (e : BSx) (c : Circuit) (hl : SxLegal e = true)
-    (hf : headersFirst e = true) (h : (build cfg e).bind tooManyRegisters = .ok c) (hi : IntsBounded c) :
-    BuilderLegal cfg e c := by
-  obtain ⟨t, hg, hp⟩ := C01_builder_parsed_any cfg e c hl hf h hi
+    (h : (build cfg e).bind tooManyRegisters = .ok c) (hi : IntsBounded c) : BuilderLegal cfg e c := by
+  obtain ⟨t, hg, hp⟩ := C01_builder_parsed_any cfg e c hl h hi
   have hpr := C01_printable_any cfg t c hp
   have hpb : parseBuild cfg (unbuild c) = .ok c := C01_rebuild_exact_any cfg t c hp
   exact { built := h, printable := hpr
@@ -163,17 +159,17 @@ theorem C01_builder_legal_any (cfg : Config) (e : BSx) (c : Circuit) (hl : SxLeg
 
 /-- **C01 for the builder API, every configuration** -/
 theorem C01_roundtrip_builder_any (cfg : Config) (e : BSx) (c : Circuit) (hl : SxLegal e = true)
-    (hf : headersFirst e = true) (h : (build cfg e).bind tooManyRegisters = .ok c) (hi : IntsBounded c) :
+    (h : (build cfg e).bind tooManyRegisters = .ok c) (hi : IntsBounded c) :
     ∃ t c', gen c = .ok t ∧ parseProgram cfg t = .ok c' ∧ circuitEq c c' = true ∧ gen c' = .ok t :=
-  C01_builder_api cfg e c (C01_builder_legal_any cfg e c hl hf h hi)
+  C01_builder_api cfg e c (C01_builder_legal_any cfg e c hl h hi)
 
 /-- … with the same meaning, every configuration -/
 theorem C01_meaning_builder_any (cfg : Config) (e : BSx) (c : Circuit) (hl : SxLegal e = true)
-    (hf : headersFirst e = true) (h : (build cfg e).bind tooManyRegisters = .ok c) (hi : IntsBounded c) :
+    (h : (build cfg e).bind tooManyRegisters = .ok c) (hi : IntsBounded c) :
     ∃ t, gen c = .ok t ∧ ∀ c', parseProgram cfg t = .ok c' →
       circuitEq c c' = true ∧ gen c' = .ok t ∧
       ∀ ρ : Sem.Env, Sem.meaning ρ c' = Sem.meaning ρ c ∧ C20.MeaningEq (Sem.meaning ρ c) (Sem.meaning ρ c') := by
-  obtain ⟨t, hg, hp⟩ := C01_builder_parsed_any cfg e c hl hf h hi
+  obtain ⟨t, hg, hp⟩ := C01_builder_parsed_any cfg e c hl h hi
   refine ⟨t, hg, ?_⟩
   intro c' hp'
   have hcc : c' = c := by rw [hp] at hp'; cases hp'; rfl
@@ -181,23 +177,11 @@ theorem C01_meaning_builder_any (cfg : Config) (e : BSx) (c : Circuit) (hl : SxL
   have heq := C20.C20_refl_parsed_any cfg t c' hp
   exact ⟨heq, hg, fun ρ => ⟨rfl, (C20.C20_sound_parsed_any cfg cfg t t c' c' ρ hp hp heq).2.2⟩⟩
 
-/-- With `autoload_pulses=True` and header statements AFTER a macro or statement (`let` / `register` / `map`; a `usepulses`
-there is refused by the builder) the statement is expected to hold too, but is NOT proved: the simulation of the autoload
-builder by the plain one (`Lemmas/RoundTripAutoload.lean`, `auto_to_plain`) is stated for programs `hs ++ bs`, header
-statements first.  What is missing: `auto_to_plain` for an arbitrary order of the children (split the children after the
-last `usepulses`; before it nothing has touched the gate table, because the builder refuses a `usepulses` once a statement
-or macro has been recorded). -/
-def C01_builder_any_order_full : Prop :=
+/-- The bound on the integers cannot be dropped (it cannot for texts: `C01_big_stop`, and the tree of a text is a legal
+S-expression: `C01_sxLegal_of_parsed`): the statement without `IntsBounded c` is FALSE. -/
+def C01_roundtrip_builder_full : Prop :=
   ∀ (cfg : Config) (e : BSx) (c : Circuit), SxLegal e = true → (build cfg e).bind tooManyRegisters = .ok c →
-    IntsBounded c → ∃ t, gen c = .ok t ∧ parseProgram cfg t = .ok c
-
-/-- what is proved of it: `autoload_pulses=False`, or header statements first -/
-theorem C01_builder_any_order_partial (cfg : Config) (e : BSx) (c : Circuit) (hl : SxLegal e = true)
-    (hside : cfg.autoload = false ∨ headersFirst e = true) (h : (build cfg e).bind tooManyRegisters = .ok c)
-    (hi : IntsBounded c) : ∃ t, gen c = .ok t ∧ parseProgram cfg t = .ok c := by
-  rcases hside with ha | hf
-  · exact C01_builder_parsed cfg e c ha hl h hi
-  · exact C01_builder_parsed_any cfg e c hl hf h hi
+    ∃ t c', gen c = .ok t ∧ parseProgram cfg t = .ok c' ∧ circuitEq c c' = true ∧ gen c' = .ok t
 
 /-! ## the theorems for texts are instances -/
 
@@ -228,8 +212,8 @@ theorem C01_sxLegal_of_parsed (cfg : Config) (txt : String) (c : Circuit) (h : p
 /-- `C01_roundtrip_bounded_any` re-derived from the builder theorem -/
 example (cfg : Config) (txt : String) (c : Circuit) (h : parseProgram cfg txt = .ok c) (hi : IntsBounded c) :
     ∃ t c', gen c = .ok t ∧ parseProgram cfg t = .ok c' ∧ circuitEq c c' = true ∧ gen c' = .ok t := by
-  obtain ⟨sx, _, hl, hf, hb⟩ := C01_sxLegal_of_parsed cfg txt c h
-  exact C01_roundtrip_builder_any cfg _ c hl hf hb hi
+  obtain ⟨sx, _, hl, _, hb⟩ := C01_sxLegal_of_parsed cfg txt c h
+  exact C01_roundtrip_builder_any cfg _ c hl hb hi
 
 
 /-! ## the hypotheses are needed
@@ -542,6 +526,39 @@ example : ∃ c, (build {} exB).bind tooManyRegisters = .ok c ∧ gen c = .ok ex
     obtain ⟨he, _, hm⟩ := hall c hp
     exact ⟨c, rfl, hg, hp, he, fun ρ => (hm ρ).2⟩
 
+/-- `autoload_pulses=True` (the configuration `C20.exAuto`: two modules, the second replacing `X` of the first), with header
+statements the builder accepts but no text can have at that place: the register AFTER the macro, a `let` after a gate
+statement, `usepulses` between them before anything is recorded -/
+def exBAuto : BSx :=
+  .list [.str "circuit",
+    .list [.str "usepulses", .str "m1", .str "*"],
+    .list [.str "let", .str "k", .int 3],
+    .list [.str "usepulses", .str "m2", .str "*"],
+    .list [.str "macro", .str "m", .str "q", .list [.str "sequential_block", .list [.str "gate", .str "X", .str "q", .str "k"]]],
+    .list [.str "register", .str "r", .int 2],
+    .list [.str "gate", .str "m", .list [.str "array_item", .str "r", .int 0]],
+    .list [.str "let", .str "n", .int 1],
+    .list [.str "gate", .str "R", .list [.str "array_item", .str "r", .str "n"], .flt ⟨false, 5, -1⟩]]
+
+theorem exBAuto_evaluated :
+    SxLegal exBAuto = true ∧ headersFirst exBAuto = false ∧
+    (match (build C20.exAuto exBAuto).bind tooManyRegisters with
+     | .ok c => decide (IntsBounded c) && decide (c.usepulses = [("m1", "*"), ("m2", "*")]) &&
+         decide (c.body.stmts.length = 2)
+     | .error _ => false) = true := by decide +kernel
+
+/-- … so it survives the round trip in that configuration -/
+example : ∃ c t, (build C20.exAuto exBAuto).bind tooManyRegisters = .ok c ∧ gen c = .ok t ∧
+    parseProgram C20.exAuto t = .ok c := by
+  obtain ⟨hl, _, h0⟩ := exBAuto_evaluated
+  cases hb : (build C20.exAuto exBAuto).bind tooManyRegisters with
+  | error err => rw [hb] at h0; cases h0
+  | ok c =>
+    rw [hb] at h0
+    simp only [Bool.and_eq_true, decide_eq_true_eq] at h0
+    obtain ⟨t, hg, hp⟩ := C01_builder_parsed_any C20.exAuto exBAuto c hl hb h0.1.1
+    exact ⟨c, t, rfl, hg, hp⟩
+
 #print axioms C01_builder_rebuild_exact
 #print axioms C01_builder_facts
 #print axioms C01_builder_lexsafe
@@ -553,7 +570,6 @@ example : ∃ c, (build {} exB).bind tooManyRegisters = .ok c ∧ gen c = .ok ex
 #print axioms C01_builder_legal_any
 #print axioms C01_roundtrip_builder_any
 #print axioms C01_meaning_builder_any
-#print axioms C01_builder_any_order_partial
 #print axioms C01_sxLegal_of_parsed
 #print axioms not_roundTrips_of_textRefused
 #print axioms not_roundTrips_of_genFails
@@ -569,5 +585,6 @@ example : ∃ c, (build {} exB).bind tooManyRegisters = .ok c ∧ gen c = .ok ex
 #print axioms C01_builder_hypotheses_needed
 #print axioms C01_builder_needs_one_register
 #print axioms exB_evaluated
+#print axioms exBAuto_evaluated
 
 end Jaqal.C01
